@@ -77,17 +77,18 @@ theorem asciiLoop_ok (fuel : Nat) (s : S) (evs : List Ev) (hl : s.text.length = 
 /-- **get_user_data keeps the invariant**: for every port, every socket content, every decoder state and every
     iflags, no access leaves `text[]`, `sb_buf[]` or the local `buf[]`, and `text_start ≤ text_end ≤ MAX_TEXT-1`
     holds afterwards -/
-theorem getUserData_ok {s : S} (h : Inv s) : ∃ s' evs, getUserData s = .ok (s', evs) ∧ Inv s' := by
+theorem getUserData_ok' {s : S} (h : Inv s) :
+    ∃ s' evs, getUserData s = .ok (s', evs) ∧ Inv s' ∧ s'.dec.fl.single = s.dec.fl.single := by
   unfold getUserData
   split
-  · exact ⟨_, _, rfl, h⟩
+  · exact ⟨_, _, rfl, h, rfl⟩
   · obtain ⟨s1, sp, hcs, ok⟩ := computeSpace_ok h
     rw [hcs]
     dsimp only
     split
-    · exact ⟨_, _, rfl, ok.inv⟩
+    · exact ⟨_, _, rfl, ok.inv, by rw [ok.dec]⟩
     · split
-      · exact ⟨_, _, rfl, ⟨ok.inv.textLen, ok.inv.se, ok.inv.eMax, ok.inv.dec⟩⟩
+      · exact ⟨_, _, rfl, ⟨ok.inv.textLen, ok.inv.se, ok.inv.eMax, ok.inv.dec⟩, by dsimp only; rw [ok.dec]⟩
       · have htake : (s1.sock.take sp).length ≤ sp := by simp; omega
         have hroomA := ok.roomA
         have c1 : ¬ ((s1.sock.take sp).length ≥ MAXT) := by omega
@@ -112,17 +113,18 @@ theorem getUserData_ok {s : S} (h : Inv s) : ∃ s' evs, getUserData s = .ok (s'
           rw [writeAt_ok hw2]
           dsimp only
           have hl3 := writeAt_length (writeAt_ok hw2)
-          obtain ⟨f, hf, _⟩ := setCmdFlag_ok
+          obtain ⟨f, hf, hfs⟩ := setCmdFlag_ok
             { s1 with port := Port.telnet, sock := List.drop sp s1.sock,
                       text := List.take (s1.tend + r.out.length) (List.take s1.tend s1.text ++ r.out ++ List.drop (s1.tend + r.out.length) s1.text) ++ [0] ++
                         List.drop (s1.tend + r.out.length + ([0] : List Byte).length) (List.take s1.tend s1.text ++ r.out ++ List.drop (s1.tend + r.out.length) s1.text),
                       tend := s1.tend + r.out.length, dec := r.d }
             (by dsimp only; rw [hl3, hl2]; omega)
           rw [hf]
-          refine ⟨_, _, rfl, ⟨?_, ?_, ?_, decInv_fl ck.inv f⟩⟩
+          refine ⟨_, _, rfl, ⟨?_, ?_, ?_, decInv_fl ck.inv f⟩, ?_⟩
           · dsimp only; rw [hl3, hl2]; exact hl1
           · dsimp only; omega
           · dsimp only; omega
+          · dsimp only; dsimp only at hfs; rw [hfs, ck.single, ok.dec]
         | ascii =>
           dsimp only
           have hw1 : s1.tend + (s1.sock.take sp).length ≤ s1.text.length := by omega
@@ -142,24 +144,25 @@ theorem getUserData_ok {s : S} (h : Inv s) : ∃ s' evs, getUserData s = .ok (s'
             have hw3 : 0 + (slice s2.text s2.tstart s2.tend).length ≤ s2.text.length := by omega
             rw [writeAt_ok hw3]
             dsimp only
-            refine ⟨_, _, rfl, ⟨?_, ?_, ?_, ?_⟩⟩
+            refine ⟨_, _, rfl, ⟨?_, ?_, ?_, ?_⟩, ?_⟩
             · dsimp only; rw [writeAt_length (writeAt_ok hw3)]; exact h2
             · dsimp only; omega
             · dsimp only; omega
             · dsimp only; rw [h5]; exact ok.inv.dec
-          · exact ⟨_, _, rfl, ⟨h2, h3, h4, by rw [h5]; exact ok.inv.dec⟩⟩
+            · dsimp only; rw [h5]; dsimp only; rw [ok.dec]
+          · exact ⟨_, _, rfl, ⟨h2, h3, h4, by rw [h5]; exact ok.inv.dec⟩, by rw [h5]; dsimp only; rw [ok.dec]⟩
         | binary =>
-          exact ⟨_, _, rfl, ⟨hl1, hse1, ok.inv.eMax, ok.inv.dec⟩⟩
+          exact ⟨_, _, rfl, ⟨hl1, hse1, ok.inv.eMax, ok.inv.dec⟩, by dsimp only; rw [ok.dec]⟩
         | console =>
-          exact ⟨_, _, rfl, ⟨hl1, hse1, ok.inv.eMax, ok.inv.dec⟩⟩
+          exact ⟨_, _, rfl, ⟨hl1, hse1, ok.inv.eMax, ok.inv.dec⟩, by dsimp only; rw [ok.dec]⟩
 
 /-- add_console_line keeps the invariant (a blob that does not fit is dropped as a whole) -/
-theorem addConsoleLine_ok {s : S} (h : Inv s) (bytes : List Byte) :
-    ∃ s', addConsoleLine s bytes = .ok s' ∧ Inv s' := by
+theorem addConsoleLine_ok' {s : S} (h : Inv s) (bytes : List Byte) :
+    ∃ s', addConsoleLine s bytes = .ok s' ∧ Inv s' ∧ s'.dec.fl.single = s.dec.fl.single := by
   unfold addConsoleLine
   dsimp only
   split
-  · exact ⟨_, rfl, h⟩
+  · exact ⟨_, rfl, h, rfl⟩
   · rename_i hc
     have hl := h.textLen
     have hw1 : s.tend + (bytes.map (fun b => if b = bLF ∨ b = bCR then bNUL else b)).length ≤ s.text.length := by
@@ -174,7 +177,7 @@ theorem addConsoleLine_ok {s : S} (h : Inv s) (bytes : List Byte) :
     rw [writeAt_ok hw2]
     dsimp only
     have hl3 := writeAt_length (writeAt_ok hw2)
-    obtain ⟨f, hf, _⟩ := setCmdFlag_ok
+    obtain ⟨f, hf, hfs⟩ := setCmdFlag_ok
       { s with text := List.take (s.tend + bytes.length) (List.take s.tend s.text ++ bytes.map (fun b => if b = bLF ∨ b = bCR then bNUL else b) ++
           List.drop (s.tend + (bytes.map (fun b => if b = bLF ∨ b = bCR then bNUL else b)).length) s.text) ++ [0] ++
           List.drop (s.tend + bytes.length + ([0] : List Byte).length) (List.take s.tend s.text ++ bytes.map (fun b => if b = bLF ∨ b = bCR then bNUL else b) ++
@@ -182,9 +185,18 @@ theorem addConsoleLine_ok {s : S} (h : Inv s) (bytes : List Byte) :
                tend := s.tend + bytes.length }
       (by dsimp only; rw [hl3, hl2]; omega)
     rw [hf]
-    refine ⟨_, rfl, ⟨?_, ?_, ?_, decInv_fl h.dec f⟩⟩
+    refine ⟨_, rfl, ⟨?_, ?_, ?_, decInv_fl h.dec f⟩, ?_⟩
     · dsimp only; rw [hl3, hl2]; exact hl
     · dsimp only; have := h.se; omega
     · dsimp only; omega
+    · dsimp only; exact hfs
+
+theorem getUserData_ok {s : S} (h : Inv s) : ∃ s' evs, getUserData s = .ok (s', evs) ∧ Inv s' :=
+  let ⟨s', evs, h1, h2, _⟩ := getUserData_ok' h
+  ⟨s', evs, h1, h2⟩
+
+theorem addConsoleLine_ok {s : S} (h : Inv s) (bytes : List Byte) : ∃ s', addConsoleLine s bytes = .ok s' ∧ Inv s' :=
+  let ⟨s', h1, h2, _⟩ := addConsoleLine_ok' h bytes
+  ⟨s', h1, h2⟩
 
 end NV.C13
